@@ -630,6 +630,7 @@ type gen struct {
 	openW  int   // handle of the write transaction the harness opened and has not ended, or -1
 	live   []int // read-only handles (snapshots, iterators, read transactions): never settle
 	isIter map[int]bool // handles that are Iter values (no Txn methods)
+	forced []wop        // scripted writes of the next transaction (directed families)
 	real   []int // write-transaction handles the harness holds (possibly settled)
 	steps  []step
 	reg    map[key]bool // rough guess of what is registered, to bias towards successful ops
@@ -643,7 +644,20 @@ func (g *gen) key() key {
 	return hx.Pick(g.rnd, g.pool)
 }
 
+// the next write of the transaction under construction: scripted operations first (directed families)
 func (g *gen) wop() wop {
+	if len(g.forced) > 0 {
+		o := g.forced[0]
+		g.forced = g.forced[1:]
+		g.tag++
+		o.tag = g.tag
+		o.via = g.rnd.Intn(2)
+		return o
+	}
+	return g.randWop()
+}
+
+func (g *gen) randWop() wop {
 	g.tag++
 	o := wop{tag: g.tag, via: g.rnd.Intn(2), k: g.key()}
 	switch x := g.rnd.Intn(100); {
@@ -763,7 +777,7 @@ func (g *gen) body(h int, wr bool, nops int, st *hx.Stats) []bstep {
 			default:
 				switch g.rnd.Intn(3) {
 				case 0:
-					add(bstep{kind: "TWrite", h: h, w: g.wop()})
+					add(bstep{kind: "TWrite", h: h, w: g.randWop()})
 				case 1:
 					add(bstep{kind: "TRead", h: h, r: g.rop()})
 				default:
@@ -880,7 +894,7 @@ func (g *gen) unmanaged(nops int, ending string, st *hx.Stats) {
 			g.plain(bstep{kind: "Single", w: wop{kind: "Delete", k: outside}})
 			st.Count("probe:lock-held")
 		default:
-			g.plain(bstep{kind: "TWrite", h: g.anyTxn(), w: g.wop()}) // read-only / settled handles refuse
+			g.plain(bstep{kind: "TWrite", h: g.anyTxn(), w: g.randWop()}) // read-only / settled handles refuse
 		}
 	}
 	switch ending {
@@ -899,7 +913,7 @@ func (g *gen) unmanaged(nops int, ending string, st *hx.Stats) {
 		case 1:
 			g.plain(bstep{kind: "TAbort", h: h})
 		case 2:
-			g.plain(bstep{kind: "TWrite", h: h, w: g.wop()})
+			g.plain(bstep{kind: "TWrite", h: h, w: g.randWop()})
 		case 3:
 			g.plain(bstep{kind: "TRead", h: h, r: g.rop()})
 		case 4:
@@ -942,9 +956,9 @@ func (g *gen) history(ntx int, st *hx.Stats, force func(i int) (kind string, nop
 			g.managed(false, nops, ending, st)
 		case "single":
 			for j := 0; j <= nops%4; j++ {
-				o := g.wop()
+				o := g.randWop()
 				for o.kind == "Truncate" { // the router has no Truncate helper
-					o = g.wop()
+					o = g.randWop()
 				}
 				g.plain(bstep{kind: "Single", w: o})
 				g.nh++
@@ -962,7 +976,7 @@ func (g *gen) history(ntx int, st *hx.Stats, force func(i int) (kind string, nop
 			}
 			if g.rnd.Pct(50) {
 				g.plain(bstep{kind: hx.Pick(g.rnd, []string{"TCommit", "TAbort"}), h: h})
-				g.plain(bstep{kind: "TWrite", h: h, w: g.wop()})
+				g.plain(bstep{kind: "TWrite", h: h, w: g.randWop()})
 				g.plain(bstep{kind: "TRead", h: h, r: g.rop()})
 				st.Count("readonly:commit/abort-then-use")
 			}
@@ -975,6 +989,120 @@ func (g *gen) history(ntx int, st *hx.Stats, force func(i int) (kind string, nop
 			st.Count("probe:lock-free")
 		}
 	}
+}
+
+// directed families (copy-on-write shapes the random generator rarely builds):
+//
+//	nested:   routes sharing prefixes are committed; then ONE cached transaction (Txn(true) / Updates)
+//	          Updates an inner route that has children and then writes below it (Update / Handle / Delete);
+//	siblings: /a/<c> are committed ONE BY ONE by the single-operation helpers (the parent's children slice
+//	          grows by append), then one transaction inserts siblings that sort before / between / after the
+//	          existing ones (and deletes one).
+//
+// followed by an ordinary random history on the same router.
+func (g *gen) directed(family, kind, ending string, st *hx.Stats) {
+	rnd := g.rnd
+	var script []wop
+	switch family {
+	case "nested":
+		m := g.pool[0].m
+		k := func(p int) key { return key{m, p} }
+		// 7 /foo  8 /foo/bar  9 /foo/bar/x  10 /foo/baz  11 /foo/bar/y  12 /fo  13 /foo/bar/x/deep  14 /foobar
+		var pre []wop
+		for _, p := range []int{7, 8, 9, 10, 11, 12, 13, 14} {
+			if p <= 8 || rnd.Pct(65) {
+				pre = append(pre, wop{kind: "Handle", k: k(p)})
+			}
+		}
+		rnd2 := rnd.Fork()
+		for i := range pre { // registration order varies
+			j := i + rnd2.Intn(len(pre)-i)
+			pre[i], pre[j] = pre[j], pre[i]
+		}
+		if rnd.Bool() {
+			g.forced = pre
+			g.managed(true, 2*len(pre)+4, "RetNil", st)
+			g.forced = nil
+		} else {
+			for _, o := range pre {
+				g.tag++
+				o.tag = g.tag
+				g.plain(bstep{kind: "Single", w: o})
+				g.nh++
+				g.noteWrite(o)
+			}
+		}
+		inner := hx.Pick(rnd, []int{7, 7, 8})
+		script = append(script, wop{kind: "Update", k: k(inner)})
+		below := map[int][]int{7: {8, 9, 10, 11, 13}, 8: {9, 11, 13}}[inner]
+		for i := 0; i < rnd.Range(1, 3); i++ {
+			p := hx.Pick(rnd, below)
+			script = append(script, wop{kind: hx.Pick(rnd, []string{"Update", "Update", "Handle", "Delete"}), k: k(p)})
+		}
+		if rnd.Pct(40) {
+			script = append(script, wop{kind: "Update", k: k(8)}, wop{kind: "Update", k: k(hx.Pick(rnd, []int{9, 11}))})
+		}
+	case "siblings":
+		m := g.pool[0].m
+		sibs := g.pool[:len(g.pool)-1] // sorted by letter
+		// commit all but 1-3 of them one by one; the held-back ones are inserted by the transaction
+		held := map[int]bool{}
+		for len(held) < rnd.Range(1, 3) && len(held) < len(sibs)-2 {
+			held[rnd.Intn(len(sibs))] = true
+		}
+		if rnd.Pct(60) {
+			held[0] = true // one that sorts before every committed sibling
+		}
+		order := []int{}
+		for i := range sibs {
+			if !held[i] {
+				order = append(order, i)
+			}
+		}
+		if rnd.Pct(30) { // not always in increasing order
+			j := rnd.Intn(len(order))
+			order[0], order[j] = order[j], order[0]
+		}
+		if rnd.Pct(30) {
+			g.tag++
+			o := wop{kind: "Handle", k: key{m, 0}, tag: g.tag}
+			g.plain(bstep{kind: "Single", w: o})
+			g.nh++
+			g.noteWrite(o)
+		}
+		for _, i := range order {
+			g.tag++
+			o := wop{kind: "Handle", k: sibs[i], tag: g.tag, via: rnd.Intn(2)}
+			g.plain(bstep{kind: "Single", w: o})
+			g.nh++
+			g.noteWrite(o)
+		}
+		for i := range sibs {
+			if held[i] {
+				script = append(script, wop{kind: "Handle", k: sibs[i]})
+			}
+		}
+		if rnd.Pct(40) {
+			script = append(script, wop{kind: "Delete", k: sibs[order[rnd.Intn(len(order))]]})
+		}
+		if rnd.Pct(40) {
+			script = append(script, wop{kind: "Update", k: sibs[order[rnd.Intn(len(order))]]})
+		}
+	}
+	g.forced = script
+	nops := 2*len(script) + rnd.Intn(4)
+	switch kind {
+	case "unmanaged":
+		g.unmanaged(nops, ending, st)
+	default:
+		g.managed(true, nops, ending, st)
+	}
+	g.forced = nil
+	st.Count("directed:" + family + ":" + kind + ":" + ending)
+	// lock probe, then life goes on
+	g.plain(bstep{kind: "Single", w: wop{kind: "Delete", k: outside}})
+	g.nh++
+	g.history(rnd.Range(0, 2), st, nil)
 }
 
 func execute(steps []step, pool []key) (obs [][]string, cut int) {
@@ -1078,12 +1206,39 @@ func main() {
 			st.Samples = append(st.Samples, human)
 		}
 	}
-	newGen := func(r *hx.Rand) *gen {
+	newGen := func(r *hx.Rand, family string) *gen {
 		g := &gen{rnd: r, openW: -1, reg: map[key]bool{}, isIter: map[int]bool{}}
-		// pool: 8 distinct keys
+		switch family {
+		case "nested": // every nested pattern for one method, two of them for a second method
+			m := r.Intn(3)
+			for p := nestedFirst; p <= nestedLast; p++ {
+				g.pool = append(g.pool, key{m, p})
+			}
+			g.pool = append(g.pool, key{(m + 1) % 3, nestedFirst}, key{(m + 1) % 3, nestedFirst + 1})
+			return g
+		case "siblings": // 4-9 siblings /a/<c> (random letters) and /a itself
+			m := r.Intn(3)
+			n := r.Range(4, 9)
+			ps := []int{}
+			for p := sibFirst; p <= sibLast; p++ {
+				ps = append(ps, p)
+			}
+			for i := 0; i < n; i++ {
+				j := i + r.Intn(len(ps)-i)
+				ps[i], ps[j] = ps[j], ps[i]
+			}
+			ps = ps[:n]
+			sort.Ints(ps)
+			for _, p := range ps {
+				g.pool = append(g.pool, key{m, p})
+			}
+			g.pool = append(g.pool, key{m, 0})
+			return g
+		}
+		// mixed pool: 8 distinct keys over the first seven patterns
 		all := []key{}
 		for m := range methods {
-			for p := range patterns {
+			for p := 0; p < 7; p++ {
 				if (key{m, p}) != outside {
 					all = append(all, key{m, p})
 				}
@@ -1100,7 +1255,7 @@ func main() {
 		if i%10 == 9 {
 			// prefix family: the same preamble and operation list, ended at every prefix in every way
 			seed := rnd.U64()
-			probe := newGen(hx.NewRand(seed))
+			probe := newGen(hx.NewRand(seed), "mixed")
 			total := probe.rnd.Range(1, 8)
 			_ = total
 			ways := [][2]string{{"unmanaged", "commit"}, {"unmanaged", "abort"}, {"updates", "RetNil"}, {"updates", "RetErr"}, {"updates", "PanicV"}}
@@ -1110,7 +1265,7 @@ func main() {
 			}
 			for k := 0; k <= nmax; k++ {
 				for _, wy := range ways {
-					g := newGen(hx.NewRand(seed))
+					g := newGen(hx.NewRand(seed), "mixed")
 					g.history(2, st, func(i int) (string, int, string) {
 						if i == 0 {
 							return "updates", 5, "RetNil" // preamble: populate
@@ -1122,9 +1277,26 @@ func main() {
 			}
 			continue
 		}
-		g := newGen(rnd.Fork())
+		fam := "mixed"
+		switch i % 10 {
+		case 1, 2:
+			// directed families: one scripted scenario ended in each of the five ways
+			seed := rnd.U64()
+			name := map[int]string{1: "nested", 2: "siblings"}[i%10]
+			for _, wy := range [][2]string{{"unmanaged", "commit"}, {"unmanaged", "abort"}, {"updates", "RetNil"}, {"updates", "RetErr"}, {"updates", "PanicV"}} {
+				g := newGen(hx.NewRand(seed), name)
+				g.directed(name, wy[0], wy[1], st)
+				emit(g, name+"-directed")
+			}
+			continue
+		case 4:
+			fam = "nested"
+		case 6:
+			fam = "siblings"
+		}
+		g := newGen(rnd.Fork(), fam)
 		g.history(rnd.Range(1, 5), st, nil)
-		emit(g, "random")
+		emit(g, "random-"+fam)
 	}
 	st.Evaluations = cs.Len()
 	st.DistinctNontrivial = nontrivial
